@@ -32,10 +32,20 @@ deriving DecidableEq, Repr, Inhabited
 
 namespace Gate
 
+/-- `len(qs) != len(set(qs))` -/
+def hasDup : List Nat → Bool
+  | [] => false
+  | x :: xs => xs.contains x || hasDup xs
+
 def checkIdx : List RawIdx → Option (List Nat)
   | [] => some []
   | .int i :: rest => if i < 0 then Option.none else (checkIdx rest).map (i.toNat :: ·)
   | .other :: _ => Option.none
+
+/-- number of targets the name demands (custom names: whatever was given) -/
+def expectedTargets (nm : String) (given : Nat) : Nat :=
+  if Tables.oneTargetGates.contains nm then 1
+  else if Tables.twoTargetGates.contains nm then 2 else given
 
 /-- `Gate.__init__` : every rejection rule, in the order the code applies them.
     `name = none` models a non-string name. -/
@@ -59,13 +69,9 @@ def mk? (name : Option String) (target : List RawIdx) (control : Option (List Ra
       match ctlRes with
       | .error e => .error e
       | .ok ctl =>
-        let all := tgt ++ ctl.getD []
-        if all.eraseDups.length != all.length then .error .value
-        else
-          let nT := if Tables.oneTargetGates.contains nm then 1
-                    else if Tables.twoTargetGates.contains nm then 2 else tgt.length
-          if tgt.length != nT then .error .value
-          else .ok ⟨nm, tgt, ctl, param, isVar⟩
+        if hasDup (tgt ++ ctl.getD []) then .error .value
+        else if tgt.length != expectedTargets nm tgt.length then .error .value
+        else .ok ⟨nm, tgt, ctl, param, isVar⟩
 
 def qubits (g : Gate) : List Nat := g.target ++ g.control.getD []
 
